@@ -138,7 +138,7 @@ func (p *Prog) Run(ob *Ob) (res *ObResult) {
 				undec = true
 			}
 		}
-		if len(res.Sites) < floor && !undec {
+		if len(res.Sites) < floor && !undec && len(res.Viols) == 0 {
 			c.Undecided("floor", token.NoPos, "rule matched %d construct(s), fewer than the hand-confirmed floor %d: the obligation would pass vacuously", len(res.Sites), floor)
 		}
 		sort.SliceStable(res.Viols, func(i, j int) bool { return res.Viols[i].Key < res.Viols[j].Key })
